@@ -86,6 +86,25 @@ W = [
     dict(id='num-exact', commit='43e6167', props=['C08'], query='* | json | num(z) as a | abs(z) as b | num(t) as c | fields a, b, c', input='{"z":9007199254740993,"t":" 9007199254740993 "}\n',
          json_lines=[{'a': 9007199254740993, 'b': 9007199254740993, 'c': 9007199254740993}]),
     dict(id='backslash-quote', commit='34af2a5', props=['C02', 'C07'], query='* | parse "a\\\\\\"b*" as x', input='a\\"bX\na"bY\n', json_lines=[{'x': 'X'}]),
+    dict(id='quoted-case', commit='9cc9c86', props=['C02'], query='"ERROR" | count', input='ERROR one\nerror two\nErRoR three\n', stdout='[{"_count":1}]\n'),
+    dict(id='filter-terminator', commit='0a8f710', props=['C02', 'C15'], query='"err " | count', input='err\nerr', args=['-o', 'json'], stdout='[]\n'),
+    dict(id='parsedate-offset', commit='5dd747f', props=['C05'], query='* | json | parseDate(t) == parseDate(u) as same | fields same',
+         input='{"t":"2021-03-05T10:30:45+05:30","u":"2021-03-05T05:00:45Z"}\n', json_lines=[{'same': True}]),
+    dict(id='case-functions-text', commit='afd6031', props=['C05'], query='* | json | toUpperCase(a) as x | toLowerCase(b) == "true" as y | length(x) as n | fields x, y, n',
+         input='{"a":"007","b":"TRUE"}\n', json_lines=[{'n': 3, 'x': '007', 'y': True}]),
+    dict(id='logfmt-blank', commit='d4c6bb8', props=['C06'], query='* | logfmt', input='a=1\n\n   \n', stdout='{"a":1}\n{}\n{}\n'),
+    dict(id='int-text-arith', commit='3ad586e', props=['C08'], query='* | json | x + 0 as a | x * 1 as b | fields a, b', input='{"x":"9007199254740993"}\n',
+         json_lines=[{'a': 9007199254740993, 'b': 9007199254740993}]),
+    dict(id='sort-desc-keyless', commit='2c51787', props=['C04', 'C09'], query='* | json | sort desc', input='{"x":1}\n{"x":3}\n{"x":2}\n', stdout='[{"x":3},{"x":2},{"x":1}]\n'),
+    dict(id='timeslice-key-spelling', commit='af5ecd9', props=['C09', 'C20'], query='* | json | timeslice(parseDate(ts)) 1h | count by (_timeslice) | limit 1',
+         input='{"ts":"2024-03-01T00:10:00Z"}\n{"ts":"2024-03-01T00:20:00Z"}\n{"ts":"2024-03-01T01:10:00Z"}\n',
+         stdout='[{"(_timeslice)":"2024-03-01T00:00:00+00:00","_count":2}]\n'),
+    dict(id='minmax-exact', commit='b2f85e2', props=['C01', 'C08'], query='* | json | min(v), max(v)', input='{"v":9007199254740993}\n{"v":9007199254740995}\n',
+         stdout='[{"_min":9007199254740993,"_max":9007199254740995}]\n'),
+    dict(id='wildcard-newline', commit='72583f8', props=['C07'], query='* | json | parse "start * end" from msg as x | fields x', input='{"msg":"start 1\\n2 end"}\n',
+         json_lines=[{'x': '1\n2'}]),
+    dict(id='dtparse-panic', commit='11f8b40', props=['C11'], query='* | parse "ts=*" as ts | parseDate(ts) as d | count', input='ts=2020-01-01\nts=12:30 -\nts=10:15:PM\nts=2020-01-02\n',
+         stdout='[{"_count":2}]\n'),
 ]
 
 
